@@ -1266,7 +1266,9 @@ class AttrProxyAccessor(WritableAccessor[T_co], PhysicalAccessor[T_co]):
         self, elmlist: _obj.ElementListCouplingMixin, obj: _obj.ModelObject
     ) -> None:
         assert self.aslist is not None
-        objs = [i for i in elmlist if i != obj]
+        # read the current value: while a slice is being deleted the list
+        # object still contains the members already removed from the model
+        objs = [i for i in self.__get__(elmlist._parent) if i != obj]
         self.__set_links(elmlist._parent, objs)
 
     def __set_links(
